@@ -42,7 +42,7 @@ def C07Full : Prop :=
 
 /-- (a) `max_size 1`, nothing created yet, `resize(0)`; a zero-wait get then obtains an object -/
 def C07_trace_a : List Action :=
-  [ .start (.resize 0), .step 0 .run, .step 0 .run,
+  [ .start (.resize 0), .step 0 .run, .step 0 .run, .step 0 .run,
     .start (.get { wait := .zero }), .step 1 .run, .step 1 .run, .step 1 .run, .step 1 .ok ]
 
 /-- (b) `max_size 2`, two objects out, `resize(1)`, `resize(2)`; a third object is admitted -/
@@ -50,8 +50,8 @@ def C07_trace_b : List Action :=
   let g : Spec := .get {}
   [ .start g, .step 0 .run, .step 0 .run, .step 0 .run, .step 0 .ok, .step 0 .run,
     .start g, .step 1 .run, .step 1 .run, .step 1 .run, .step 1 .ok, .step 1 .run,
-    .start (.resize 1), .step 2 .run, .step 2 .run,
-    .start (.resize 2), .step 3 .run, .step 3 .run,
+    .start (.resize 1), .step 2 .run, .step 2 .run, .step 2 .run,
+    .start (.resize 2), .step 3 .run, .step 3 .run, .step 3 .run,
     .start (.get { wait := .zero }), .step 4 .run, .step 4 .run, .step 4 .run, .step 4 .ok ]
 
 /-- the pinned code violates the property: after `resize(0)` returned, a get is admitted
